@@ -195,6 +195,22 @@ def check_grain(g, rec=None):
         src2 *= 0.5
         if not np.array_equal(np.asarray(g3.ubi), ubi_before):
             fails.append(fail("alias", "grain.set_ubi keeps a reference to the caller's array", route="set_ubi(ndarray)"))
+    # a grain that carries a reference cell for strain work (ref_unitcell): its own matrices still describe its own cell
+    ok, g5 = guard(grainmod.grain, np.array(ubi_before, float))
+    if ok:
+        from ImageD11 import unitcell as ucm
+        rc_ = [x * 1.003 for x in cell[:3]] + list(cell[3:])
+        g5.ref_unitcell = ucm.unitcell(rc_, "P")
+        ok, mats = guard(lambda: (np.asarray(g5.B, float), np.asarray(g5.U, float), np.asarray(g5.UB, float)))
+        if not ok:
+            fails.append(exc_failure("grain.B/U/UB with ref_unitcell set", mats))
+        else:
+            B5, U5, UB5 = mats
+            e_ = max(np.abs(U5 @ B5 @ ubi_before - np.eye(3)).max(), np.abs(U5 @ U5.T - np.eye(3)).max(),
+                     np.abs(UB5 @ ubi_before - np.eye(3)).max())
+            if e_ > 1e-9:
+                fails.append(fail("law", "grain with a reference cell attached (0.3 %% larger): U.B.ubi, U.U^T or UB.ubi "
+                                  "differ from identity by %.3g" % e_, route="grain.ref_unitcell"))
     # the last cycles of a refinement: updates of parts per million (and of parts in 1e9) through set_ubi after the
     # derived matrices were read; what is read afterwards belongs to the new matrix
     ok, g4 = guard(grainmod.grain, np.array(ubi_before, float))
